@@ -136,7 +136,7 @@ SPECS["C08"] = dict(
 # C10: Bunch-Kaufman LDLT
 def c10_jobs(tier):
     if tier == "quick":
-        return [dict(harness="c10_bkldlt", pattern=r"^bk/n[12]/|^bk-lower-vs-upper/n[12]$|^bk-reuse|^wrapper/.*/n[12]$|^bk-complex/n[12]/", label="n<=2, all layouts, real+complex", deadline=200),
+        return [dict(harness="c10_bkldlt", pattern=r"^bk/n[12]/|^bk-lower-vs-upper/n[12]$|^bk-reuse|^wrapper/.*/n[12]$|^wrapper-reuse/|^bk-complex/n[12]/", label="n<=2, all layouts, real+complex; re-used objects", deadline=200),
                 dict(harness="c10_bkldlt", pattern=r"^bk/n3/(lower|upper)/colmajor/shift|^bk/n3/upper/rowmajor/shift", label="n=3 real", deadline=280),
                 dict(harness="c10_bkldlt", pattern=r"^bk-pivot-rule/", label="pivot search + selection = Bunch-Kaufman rule, arbitrary reduced matrices n<=5, every step k", deadline=200)]
     return c10_jobs("quick") + [dict(harness="c10_bkldlt", pattern=r"^bk/n3/|^bk-lower-vs-upper/n3$|^wrapper/.*/n3$", label="n=3 real all layouts, wrappers n=3 [budgeted]", deadline=1200, budget=True),
@@ -198,9 +198,9 @@ def reg_post(programs):
 
 def c01_jobs(tier):
     if tier == "quick":
-        return [dict(harness="sym_glue", pattern=r"^sym/n4k2m3/[A-Za-z]+/LargestAlge/maxit[01]/ic(/symtol)?$|^symshift/n4k2m3/.*/maxit[01]/|^hist/n3k1m2/.*/maxit[01]/|^sym/n3k1m2/.*/maxit2/ic$",
-                     label="symmetric glue (4,2,3) maxit<=1, (3,1,2) maxit<=2, histories", deadline=280)]
-    return c01_jobs("quick") + [dict(harness="sym_glue", pattern=r"^sym/n(5k2m4|5k3m4|6k1m3|6k2m5)/LargestMagn/LargestAlge/maxit[01]/ic$|^sym/n5k2m4/(BothEnds|SmallestAlge)/LargestAlge/maxit[01]/ic$|^hist/n4k2m3/.*/maxit0/|^sym/n3k1m2/.*/maxit3/ic$",
+        return [dict(harness="sym_glue", pattern=r"^sym/n4k2m3/[A-Za-z]+/LargestAlge/maxit[01]/ic(/symtol)?$|^symshift/n4k2m3/.*/maxit[01]/|^hist/n3k1m2/.*/maxit[01]/|^sym/n3k1m2/.*/maxit2/ic$|^hist2/n3k1m2/",
+                     label="symmetric glue (4,2,3) maxit<=1, (3,1,2) maxit<=2, histories incl. a second compute() with other rule / maxit", deadline=280)]
+    return c01_jobs("quick") + [dict(harness="sym_glue", pattern=r"^sym/n(5k2m4|5k3m4|6k1m3|6k2m5)/LargestMagn/LargestAlge/maxit[01]/ic$|^sym/n5k2m4/(BothEnds|SmallestAlge)/LargestAlge/maxit[01]/ic$|^hist/n4k2m3/.*/maxit0/|^sym/n3k1m2/.*/maxit3/ic$|^hist2/n4k2m3/.*-maxit0$",
                                      label="larger sizes (5,2,4) (5,3,4) (6,1,3) (6,2,5) maxit<=1, (3,1,2) maxit 3, histories (4,2,3) [budgeted]", deadline=700, budget=True)]
 
 
@@ -212,10 +212,10 @@ SPECS["C01"] = dict(
                  "LATEST decomposition of the CURRENT factorization (the one eigenvectors() multiplies by V), it passed |est|*beta < tol*max(eps^(2/3),|theta|) on that factorization (in exact "
                  "arithmetic this is ||Ax-theta x|| < tol*scale because A(Vy)-theta(Vy)=f*y_last under the Krylov invariant of C07), its vector is V*y of the same index, no pair is returned twice, "
                  "and the kernels were only called inside their contract (factorize_from on a factorization valid at from_k). Histories: init;compute(maxit) / init;compute;compute / "
-                 "init;compute;init;compute, symbolic tol, shift-and-invert back-transformation 1/nu+sigma. Two concrete replay drivers of the defects found and fixed this way are re-run on every check."),
+                 "init;compute;init;compute / init;compute(rule1,maxit1);compute(rule2,maxit2) with maxit2 = 0 included (the arguments of the latest call govern), symbolic tol, shift-and-invert back-transformation 1/nu+sigma. Two concrete replay drivers of the defects found and fixed this way are re-run on every check."),
     functions=GLUE_FUNCS_SYM, stubs=GLUE_STUBS, assumptions=GLUE_ASSUME,
-    bounds={"quick": {"(n,nev,ncv)": "(4,2,3) maxit 0,1; (3,1,2) maxit 0..2", "rules": "5 selection rules", "histories": "ic, icc, icic"},
-            "thorough": {"(n,nev,ncv)": "(3,1,2),(4,2,3),(5,2,4),(5,3,4),(6,1,3) maxit<=2 (3 for (3,1,2))", "histories": "ic, icc, icic"}},
+    bounds={"quick": {"(n,nev,ncv)": "(4,2,3) maxit 0,1; (3,1,2) maxit 0..2", "rules": "5 selection rules", "histories": "ic, icc, icic, icC (second compute with other rule/maxit, (3,1,2))"},
+            "thorough": {"(n,nev,ncv)": "(3,1,2),(4,2,3),(5,2,4),(5,3,4),(6,1,3) maxit<=2 (3 for (3,1,2))", "histories": "ic, icc, icic, icC (also (4,2,3))"}},
     outside=[ROUNDING, "orthonormality X'X=I of the returned vectors relies on V'V=I (C07) and Z'Z=I (C09)", "HermEigsSolver (complex Hermitian) shares HermEigsBase; not instantiated separately",
              "convergence of the iteration itself"],
     policy=dict(events="ignore", allow_cut=False),
@@ -228,9 +228,9 @@ SPECS["C01"] = dict(
 
 def c02_jobs(tier):
     if tier == "quick":
-        return [dict(harness="gen_glue", pattern=r"^gen/n5k1m3/[A-Za-z]+/LargestMagn/maxit[01]/ic$|^genshift/n5k1m3/.*/maxit[01]/|^genhist/n5k1m3/.*/maxit0/|^gen/n5k2m4/(LargestMagn/LargestMagn|LargestReal/SmallestReal|LargestMagn/SmallestImag)/maxit0/|^genshift/n5k2m4/.*/maxit0/",
-                     label="general glue (5,1,3) maxit<=1, (5,2,4) maxit 0, histories", deadline=280)]
-    return c02_jobs("quick") + [dict(harness="gen_glue", pattern=r"^gen/n(5k2m4|6k2m5|6k3m5|7k1m6)/LargestMagn/LargestMagn/maxit[01]/ic$|^gen/n5k2m4/(LargestReal|SmallestImag)/LargestMagn/maxit1/ic$|^genhist/n5k1m3/.*/maxit1/",
+        return [dict(harness="gen_glue", pattern=r"^gen/n5k1m3/[A-Za-z]+/LargestMagn/maxit[01]/ic$|^genshift/n5k1m3/.*/maxit[01]/|^genhist/n5k1m3/.*/maxit0/|^gen/n5k2m4/(LargestMagn/LargestMagn|LargestReal/SmallestReal|LargestMagn/SmallestImag)/maxit0/|^genshift/n5k2m4/.*/maxit0/|^genhist2/.*/maxit0/icC(/shift)?/then-.*-maxit0$",
+                     label="general glue (5,1,3) maxit<=1, (5,2,4) maxit 0, histories incl. a second compute() with other rule", deadline=280)]
+    return c02_jobs("quick") + [dict(harness="gen_glue", pattern=r"^gen/n(5k2m4|6k2m5|6k3m5|7k1m6)/LargestMagn/LargestMagn/maxit[01]/ic$|^gen/n5k2m4/(LargestReal|SmallestImag)/LargestMagn/maxit1/ic$|^genhist/n5k1m3/.*/maxit1/|^genhist2/",
                                      label="larger sizes (5,2,4) (6,2,5) (6,3,5) (7,1,6) maxit<=1, histories maxit 1 [budgeted]", deadline=700, budget=True)]
 
 
@@ -256,10 +256,10 @@ SPECS["C02"] = dict(
 
 def c05_jobs(tier):
     if tier == "quick":
-        return [dict(harness="sym_glue", pattern=r"^sym/n4k2m3/(LargestMagn|BothEnds)/(LargestMagn|SmallestAlge|SmallestMagn)/maxit[01]/ic$|^sym/n3k1m2/.*/maxit[012]/ic$|^hist/n3k1m2/.*/maxit1/icic$",
-                     label="symmetric: all sorting rules, accessors, counters", deadline=200),
-                dict(harness="gen_glue", pattern=r"^gen/n5k1m3/(LargestReal|LargestMagn)/(SmallestReal|SmallestImag)/maxit[01]/ic$|^genshift/n5k1m3/LargestReal/SmallestReal/maxit[01]/|^genhist/n5k1m3/.*/maxit0/|^gen/n5k2m4/LargestReal/SmallestReal/maxit0/|^genshift/n5k2m4/LargestReal/SmallestReal/maxit0/",
-                     label="general: sorting rules, accessors, counters", deadline=200)]
+        return [dict(harness="sym_glue", pattern=r"^sym/n4k2m3/(LargestMagn|BothEnds)/(LargestMagn|SmallestAlge|SmallestMagn)/maxit[01]/ic$|^sym/n3k1m2/.*/maxit[012]/ic$|^hist/n3k1m2/.*/maxit1/icic$|^hist2/n3k1m2/.*-maxit0$",
+                     label="symmetric: all sorting rules, accessors, counters; second compute() with maxit 0 / another rule", deadline=200),
+                dict(harness="gen_glue", pattern=r"^gen/n5k1m3/(LargestReal|LargestMagn)/(SmallestReal|SmallestImag)/maxit[01]/ic$|^genshift/n5k1m3/LargestReal/SmallestReal/maxit[01]/|^genhist/n5k1m3/.*/maxit0/|^gen/n5k2m4/LargestReal/SmallestReal/maxit0/|^genshift/n5k2m4/LargestReal/SmallestReal/maxit0/|^genhist2/.*/maxit0/icC(/shift)?/then-.*-maxit0$",
+                     label="general: sorting rules, accessors, counters; second compute() with maxit 0 / another rule", deadline=200)]
     return c05_jobs("quick") + [dict(harness="sym_glue", pattern=r"^sym/n5k2m4/LargestMagn/(LargestMagn|SmallestAlge|SmallestMagn)/maxit[01]/ic$|^symshift/n5k2m4/.*/maxit[01]/", label="symmetric (5,2,4) [budgeted]", deadline=700, budget=True),
                                 dict(harness="gen_glue", pattern=r"^gen/n5k2m4/(LargestReal/SmallestReal|LargestMagn/SmallestImag)/maxit1/ic$|^genshift/n5k2m4/.*/maxit1/", label="general (5,2,4) maxit 1 [budgeted]", deadline=700, budget=True)]
 
@@ -284,14 +284,17 @@ SPECS["C05"] = dict(
 
 
 def c04_jobs(tier):
-    q = [dict(harness="sym_glue", pattern=r"^(full|fullshift)/|^sym/n5k2m4/[A-Za-z]+/LargestAlge/maxit0/ic$|^sym/n4k2m3/BothEnds/.*/maxit1/ic$", label="symmetric: full-space exactness, rule = set", deadline=200),
-         dict(harness="gen_glue", pattern=r"^(genfull|genfullshift)/|^gen/n5k2m4/[A-Za-z]+/LargestMagn/maxit0/ic$", label="general: full-space exactness, rule = set", deadline=200),
+    q = [dict(harness="sym_glue", pattern=r"^(full|fullshift)/|^sym/n5k2m4/[A-Za-z]+/LargestAlge/maxit0/ic$|^sym/n4k2m3/BothEnds/.*/maxit1/ic$|^full2/n3k1m3/|^full2/n4k2m4/.*/icC/then-",
+              label="symmetric: full-space exactness, rule = set; a second compute() with another rule returns the new rule's set", deadline=200),
+         dict(harness="gen_glue", pattern=r"^(genfull|genfullshift)/|^gen/n5k2m4/[A-Za-z]+/LargestMagn/maxit0/ic$|^genfull2/n3k1m3/", label="general: full-space exactness, rule = set; second compute() with another rule", deadline=200),
          dict(harness="c08_qr", pattern=r"^tridiag-exact-shift/n2", label="exact-shift deflation", deadline=100)]
     if tier == "quick":
         return q
     return q + [dict(harness="sym_glue", pattern=r"^sym/n(5k3m4|6k2m5)/(LargestMagn|BothEnds|SmallestAlge)/LargestAlge/maxit[01]/ic$", label="symmetric: larger sizes [budgeted]", deadline=700, budget=True),
                 dict(harness="gen_glue", pattern=r"^gen/n(6k2m5|6k3m5)/(LargestMagn|LargestReal)/LargestMagn/maxit[01]/ic$", label="general: larger sizes [budgeted]", deadline=700, budget=True),
-                dict(harness="c08_qr", pattern=r"^tridiag-exact-shift/n3", label="exact-shift deflation n=3 [budgeted]", deadline=600, budget=True)]
+                dict(harness="c08_qr", pattern=r"^tridiag-exact-shift/n3", label="exact-shift deflation n=3 [budgeted]", deadline=600, budget=True),
+                dict(harness="sym_glue", pattern=r"^full2/", label="symmetric: second compute() with another rule, all full2 cases [budgeted]", deadline=600, budget=True),
+                dict(harness="gen_glue", pattern=r"^genfull2/", label="general: second compute() with another rule, all genfull2 cases [budgeted]", deadline=600, budget=True)]
 
 
 SPECS["C04"] = dict(
@@ -495,7 +498,8 @@ P_INSTANCES = ["operators (n=6): diag(6..1), 1-D Laplacian, rank-1 (i+1)(j+1)/8,
 
 
 def c06_jobs(tier):
-    return [dict(harness="c06_poison", pattern=r"^reuse/|^shared-operator/|^operator-untouched/|^svd/", label="poisoned-history reruns, shared operator, operator probes, SVD re-run", deadline=250, sanitize=(tier != "quick"))]
+    return [dict(harness="c06_poison", pattern=r"^reuse/|^shared-operator/|^operator-untouched/|^svd/", label="poisoned-history reruns, shared operator (plain and shift-and-invert), operator probes, SVD re-run", deadline=250, sanitize=(tier != "quick")),
+            dict(harness="c10_bkldlt", pattern=r"^wrapper-reuse/|^bk-reuse/", label="operator object re-used: set_shift twice / second factorization of the same size (symbolic matrices, shared with C10)", deadline=200)]
 
 
 SPECS["C06"] = dict(
@@ -507,7 +511,9 @@ SPECS["C06"] = dict(
                  "term over poison; the concrete results (eigenvalues, eigenvectors, num_iterations, num_operations, return value, info) must be bit-identical to those of a freshly constructed solver. One "
                  "poisoned run covers EVERY earlier history at once (inductive-step pattern). Also: two solver objects sharing one operator object interleaved at call granularity; op.perform_op(w) before and "
                  "after compute() bit-identical for the shift-and-invert solvers incl. the complex-shift solver, whose second init()+compute() must repeat the first; PartialSVDSolver: compute(); U,V; "
-                 "compute(other args); U,V equal a fresh object's. Replay drivers of the two defects found and fixed here re-run."),
+                 "compute(other args); U,V equal a fresh object's. Two shift-and-invert solvers built on ONE operator object (the second constructor installs the shift again): results equal a fresh "
+                 "operator's and the operator still applies (A - sigma I)^-1; symbolically (C10 harness): DenseSymShiftSolve::set_shift twice and a second BKLDLT::compute of the same size on symbolic "
+                 "matrices solve the LATEST system on every pivoting path of both factorizations. Replay drivers of the two defects found and fixed here re-run."),
     functions=["HermEigsBase/GenEigsBase::init, compute and everything below (real Arnoldi, Lanczos, TridiagEigen, UpperHessenbergEigen/Schur, TridiagQR, UpperHessenbergQR, DoubleShiftQR, SimpleRandom)",
                "SymEigsSolver, GenEigsSolver, SymEigsShiftSolver, GenEigsRealShiftSolver, GenEigsComplexShiftSolver::sort_ritzpair, PartialSVDSolver::compute/matrix_U/matrix_V/singular_values"],
     bounds={"quick": {"instances": P_INSTANCES, "poison shapes": 3, "cases": 107}, "thorough": {"instances": P_INSTANCES, "poison shapes": 3, "cases": 107, "sanitizers": "ASan+UBSan"}},
@@ -555,17 +561,21 @@ def c16_jobs(tier):
 
 
 SPECS["C16"] = dict(
-    run=std_run, jobs=c16_jobs, post=reg_post([("c16_svd_cache.cpp", ())]),
+    run=std_run, jobs=c16_jobs, post=reg_post([("c16_svd_cache.cpp", ()), ("c16_svd_rank_deficient.cpp", ())]),
     explanation=("PartialSVDSolver decided piecewise: (1) SVDTallMatOp / SVDWideMatOp on fully symbolic 3x2, 2x3, 3x3, 4x2, 2x4 matrices, dense and sparse, row- and column-major: y = A'A x resp. A A' x and "
                  "dimension min(m,n); (2) the accessor algebra from an ARBITRARY converged state of the nested symmetric solver (symbolic positive eigenvalues theta, symbolic Ritz vectors and basis, "
                  "nconv = 0..ncomp): singular_values() = s with s >= 0, s^2 = theta; matrix_U(k)/matrix_V(k) have min(k, nconv) columns for every k = 0..ncomp+1; tall: V = W, U s = A v; wide/square: U = W, "
                  "V s = A'u - hence A V = U S, A'U = V S, and U'U = I, V'V = I follow from the eigen-relation W'W = I, (A'A)W = W Theta guaranteed by C01/C07/C09; (3) history: compute(); U,V; compute(other "
                  "arguments); U,V equal a fresh object's answer bit for bit (mode P instances, the stale-cache defect found here is fixed); (4) the nested solver's guarantees (ordering LargestAlge = "
-                 "non-increasing singular values, genuine eigenpairs) are C01/C04/C05 on the shared HermEigsBase code. Replay driver for the cache / leak defects re-runs."),
+                 "non-increasing singular values, genuine eigenpairs) are C01/C04/C05 on the shared HermEigsBase code; (5) exactly rank-deficient input: the same accessor code from an eigen-state whose "
+                 "eigenvalues are ARBITRARY reals (zero, or slightly negative as rounding leaves them): no root of a negative number and no division by zero may be executed (definedness events are "
+                 "violations), singular values are >= 0, and wherever theta > 0 the factor identities still hold - the NaN defect found by these obligations is fixed (f53bb85). Replay drivers for the "
+                 "cache / leak / rank-deficiency defects re-run."),
     functions=["SVDTallMatOp::perform_op, SVDWideMatOp::perform_op", "PartialSVDSolver constructor, compute, singular_values, matrix_U, matrix_V"],
-    bounds={"quick": {"operator shapes": "3x2, 2x3, 3x3, 4x2, 2x4", "accessor states": "4x3, 3x4, 3x3; ncomp=2; nconv 0..2; k 0..3"}, "thorough": "same"},
-    outside=[ROUNDING + " (so slightly negative computed eigenvalues under sqrt and the tolerance clause are not visible)", "division by a zero singular value on exactly rank-deficient input (theta > 0 assumed)"],
-    assumptions=["exact real arithmetic", "converged eigenvalues of A'A are positive (full rank on the converged part)"],
+    bounds={"quick": {"operator shapes": "3x2, 2x3, 3x3, 4x2, 2x4", "accessor states": "4x3, 3x4, 3x3; ncomp=2; nconv 0..2; k 0..3; rank-deficient variants nconv 1..2"}, "thorough": "same"},
+    outside=[ROUNDING + " (the tolerance clause; that the nested solver may hand back a slightly negative eigenvalue is modelled by leaving theta unconstrained in the rank-deficient cases)",
+             "orthonormality of the vectors belonging to zero singular values (a zero column is returned for them)"],
+    assumptions=["exact real arithmetic", "factor-identity cases: converged eigenvalues of A'A are positive; rank-deficient cases: none"],
     policy=dict(events="violation", allow_cut=False),
     technique="symbolic execution of the SVD operators and of the accessor code from an arbitrary eigen-state; z3 proves the factor identities; mode-P rerun for the history clause",
     level_text="bounded symbolic verification of operator and accessor algebra at shapes up to 4x3; the eigen-solver underneath is covered by C01/C04/C05/C07",
